@@ -2,6 +2,7 @@ SPECIFICATION TraceSpec
 CONSTANTS
   Prefixes = {"x1", "x2", "y1", "y2"}
   KF = {"pfx", "stuck", "failconn", "lldrop"}
+  Triage = FALSE
 CONSTRAINT TraceConstraint
 POSTCONDITION TraceAccepted
 CHECK_DEADLOCK FALSE
